@@ -94,6 +94,18 @@ class Collector:
         s.add(*terms)
         t0 = time.time()
         r = s.check()
+        if r == z3.unknown:
+            # second encoding / engine before giving up: z3's nlsat tactic (non-linear real arithmetic)
+            try:
+                s2 = z3.Tactic('qfnra-nlsat').solver()
+                s2.set('timeout', timeout_ms or self.timeout_ms)
+                s2.add(*terms)
+                r2 = s2.check()
+                if r2 != z3.unknown:
+                    r, s = r2, s2
+                    self.stats['retried_with_nlsat'] = self.stats.get('retried_with_nlsat', 0) + 1
+            except z3.Z3Exception:
+                pass
         dt = time.time() - t0
         self.stats['queries'] += 1
         self.stats['solver_time_s'] += dt
